@@ -98,6 +98,7 @@ pub fn random_benign_knobs(r: &mut Rng) -> Knobs {
         sibling_glue: r.chance(0.3),
         shuffle_answers: false,
         tc_every: *r.pick(&[0u32, 0, 3, 5]),
+        root_glue_family: 0,
     };
     k.cache_size = if r.chance(0.3) { r.range(1, 16) as usize } else { 512 };
     k
@@ -257,6 +258,7 @@ fn gen_c07(seed: u64, tier: Tier) -> ResolvePlan {
         zero_ttl_outside_ns_addresses: *r.pick(&[0u8, 0, 0, 60]),
         short_ttl_value: 1,
         ghost_ns_percent: 0,
+        parent_ns_serves_child_percent: 0,
     };
     // address families: mostly v4, sometimes dual/v6 with a matching mode
     let (fam, mode) = match r.below(6) {
@@ -789,9 +791,90 @@ resolve_property!(
 
 pub struct C18;
 
+/// A shape the random generator does not reach: the root and a second-level zone
+/// share one dual-stack server, `ns1.<tld>.`, named in the TLD between them, which
+/// other servers serve; the hints know only one of its families, the other arrives
+/// as glue of the TLD's referral - between two contacts of the same host within
+/// one walk down the tree.
+fn shared_root_server_plan(r: &mut Rng, mut knobs: Knobs) -> ResolvePlan {
+    use universe::{UZone, Universe};
+    let tld = *r.pick(&["net.", "com."]);
+    let h = |s: &str| universe::child_name(s, tld);
+    let sub = h("a");
+    let soa = |apex: &str, serial: u32| format!("SOA mname.{apex} hostmaster.{apex} {serial} 3600 600 86400 300");
+    let ttl = *r.pick(&[300u32, 3600]);
+    let shared = h("ns1");
+    let other = h("ns2");
+    let zones = vec![
+        UZone { apex: ".".into(), soa: "SOA mname. hostmaster. 1 3600 600 86400 300".into(), soa_ttl: ttl, ns: vec![shared.clone()], ns_ttl: ttl, records: Vec::new() },
+        UZone {
+            apex: tld.into(),
+            soa: soa(tld, 2),
+            soa_ttl: ttl,
+            ns: vec![other.clone()],
+            ns_ttl: ttl,
+            records: vec![
+                universe::Rec::new(&shared, "A 10.100.0.1", ttl),
+                universe::Rec::new(&shared, "AAAA fd00::100:1", ttl),
+                universe::Rec::new(&other, "A 10.100.0.2", ttl),
+                universe::Rec::new(&other, "AAAA fd00::100:2", ttl),
+                universe::Rec::new(&h("www"), "A 10.100.0.20", ttl),
+            ],
+        },
+        UZone {
+            apex: sub.clone(),
+            soa: soa(&sub, 3),
+            soa_ttl: ttl,
+            ns: vec![shared.clone()],
+            ns_ttl: ttl,
+            records: vec![
+                universe::Rec::new(&universe::child_name("www", &sub), "A 10.100.0.30", ttl),
+                universe::Rec::new(&universe::child_name("txt", &sub), "TXT deep", ttl),
+            ],
+        },
+    ];
+    knobs.mode = "recursive".into();
+    knobs.protocol_mode = (*r.pick(&["prefer-v4", "prefer-v6"])).to_string();
+    knobs.server.sibling_glue = true;
+    knobs.server.root_glue_family = 0;
+    // the hints: sometimes complete, mostly one family only
+    let fam = *r.pick(&["A", "AAAA", "AAAA", "A", "both"]);
+    let mut hints = vec![universe::Rec::new(".", &format!("NS {shared}"), 3_600_000)];
+    if fam != "AAAA" {
+        hints.push(universe::Rec::new(&shared, "A 10.100.0.1", 3_600_000));
+    }
+    if fam != "A" {
+        hints.push(universe::Rec::new(&shared, "AAAA fd00::100:1", 3_600_000));
+    }
+    let names = [universe::child_name("www", &sub), universe::child_name("txt", &sub), h("www"), universe::child_name("missing", &sub)];
+    let questions = (0..r.range(1, 3))
+        .map(|_| QuestionPlan {
+            gap_ms: *r.pick(&[0u64, 10, 4000]),
+            name: r.pick(&names).clone(),
+            qtype: (*r.pick(&["A", "TXT", "AAAA"])).into(),
+            recursive: true,
+            prune_before: false,
+        })
+        .collect();
+    ResolvePlan {
+        knobs,
+        hints_auto: false,
+        local: vec![LocalZone { apex: ".".into(), soa: None, records: hints }],
+        universe: Universe { zones },
+        cache_preload: Vec::new(),
+        questions,
+    }
+}
+
 fn gen_c18(seed: u64, _index: u64, tier: Tier) -> ResolvePlan {
     let mut r = Rng::new(seed);
     let mut knobs = random_benign_knobs(&mut r);
+    if r.chance(0.03) {
+        return shared_root_server_plan(&mut r, knobs);
+    }
+    // C18 holds whatever upstream servers do: now and then a server refers the next
+    // deeper domain to itself, by name, with glue of both families
+    let self_referrals = r.chance(0.15);
     let ttl_sets: [&[u32]; 4] = [&[300], &[5, 300], &[2, 60, 300], &[1, 5, 3600]];
     let opts = GenOpts {
         max_depth: match tier {
@@ -810,9 +893,27 @@ fn gen_c18(seed: u64, _index: u64, tier: Tier) -> ResolvePlan {
         zero_ttl_outside_ns_addresses: *r.pick(&[0u8, 0, 30, 100]),
         short_ttl_value: 0,
         ghost_ns_percent: *r.pick(&[0u8, 0, 40]),
+        parent_ns_serves_child_percent: 0,
+    };
+    // the same server met again one referral later, its other family's address
+    // arriving with that referral (the root's glue covers one family only)
+    let opts = if r.chance(0.3) {
+        knobs.server.sibling_glue = true;
+        knobs.server.root_glue_family = *r.pick(&[1u8, 2]);
+        GenOpts {
+            parent_ns_serves_child_percent: 60,
+            family_profile: 2,
+            ..opts
+        }
+    } else {
+        opts
     };
     knobs.protocol_mode = (*r.pick(&["only-v4", "prefer-v4", "prefer-v6", "only-v6"])).to_string();
     knobs.upstream_port = *r.pick(&[53u16, 53, 5353, 1053, 40000]);
+    if self_referrals {
+        knobs.upstream_fault_kinds = vec!["referral_to_self_with_glue".into()];
+        knobs.faults.insert("upstream.fault".into(), *r.pick(&[0.2, 0.5]));
+    }
     if r.chance(0.15) {
         knobs.mode = "forwarding".into();
     }
@@ -1277,7 +1378,7 @@ resolve_property!(
     oracle_c08,
     60_000,
     1_000_000,
-    "first a deterministic sweep - each of 33 upstream fault kinds (silence, delays around 5 s and up to 70 s, garbage, truncation, wrong ID/QR/opcode/question, TC, error rcodes, empty, lame/unresolvable/self/fake-deeper/glue-less-alias-name-server referrals, referrals in the answer section, alias loops (through the question name, self-loops, lassos) and streams, TTL 0, oversize, TCP refuse/black hole/reset/early EOF/bad length) alone at each of 8 exchange positions of 6 universes in recursive and forwarding mode (3168 runs) - then random runs: random subsets of those kinds at random rates on every exchange incl. nested name-server lookups, plus datagram drop/duplicate/corrupt/truncate, connect refuse/black-hole, failures to open a socket, latencies up to 70 s. Oracle: resolve() completes, <= 60 s virtual, every UDP socket and TCP attempt lives <= 5 s, no panic, no stall, every returned record was supplied by local data or by the bytes of a message that reached the resolver. Non-trivial = at least one exchange and at least one fault fired; distinct = distinct (exchange sequence, faults, result classes)",
+    "first a deterministic sweep - each of 34 upstream fault kinds (silence, delays around 5 s and up to 70 s, garbage, truncation, wrong ID/QR/opcode/question, TC, error rcodes, empty, lame/unresolvable/self/fake-deeper/glue-less-alias-name-server referrals, referrals in the answer section, alias loops (through the question name, self-loops, lassos) and streams, TTL 0, oversize, TCP refuse/black hole/reset/early EOF/bad length) alone at each of 8 exchange positions of 6 universes in recursive and forwarding mode (3264 runs) - then random runs: random subsets of those kinds at random rates on every exchange incl. nested name-server lookups, plus datagram drop/duplicate/corrupt/truncate, connect refuse/black-hole, failures to open a socket, latencies up to 70 s. Oracle: resolve() completes, <= 60 s virtual, every UDP socket and TCP attempt lives <= 5 s, no panic, no stall, every returned record was supplied by local data or by the bytes of a message that reached the resolver. Non-trivial = at least one exchange and at least one fault fired; distinct = distinct (exchange sequence, faults, result classes)",
     [
         "while faults flow only termination, time bounds, panic-freedom and provenance are judged - any answer or error is acceptable",
         "a spin that makes no virtual-time progress is detected as a stall after 1,000,000 clock reads at one instant (deterministic), backed by a 30 s real-time watchdog",
